@@ -67,7 +67,9 @@ class C13(Spec):
         fails = []
         steps = core.parse_steps(impl)
         prev = {}; prev_arb = None
+        ever_arb = False      # has an arbiter EVER registered (the property's own notion; not read off the node's watcher table)
         for (inp, rest, dump) in steps:
+            if inp.startswith("RESET"): ever_arb = False
             cur = entries(dump); arb = arbiters(dump)
             r = next((x for x in rest if x.startswith("R ")), "")
             if any(x.startswith("R PANIC") for x in rest): fails.append(Failure("panic", f"{inp}: {rest[:1]}")); break
@@ -93,6 +95,7 @@ class C13(Spec):
                                 fails.append(Failure("notice-not-delivered-to-arbiter", f"{inp}: arbiter session {a} did not get {notice!r}"))
                 elif r.startswith("R error An conflitct"):
                     if prev_arb is not None: fails.append(Failure("refused-although-arbiter-registered", inp))
+                    elif ever_arb: fails.append(Failure("refused-although-an-arbiter-had-registered", f"{inp}: an arbiter registered earlier and left; the conflict must be recorded for the next one"))
                     if before != after: fails.append(Failure("refused-write-changed-key", f"{inp}: {before} -> {after}"))
                 elif r == "R ok":
                     if pend_before or (before is not None and before[0] == -2):
@@ -109,6 +112,7 @@ class C13(Spec):
                             fails.append(Failure("key-writable-while-conflict-pending", f"{inp}: {left} unresolved but version {after[0]}"))
                         if not left and (after[0] == -2 or after[1] != val):
                             fails.append(Failure("drained-key-not-resolved", f"{inp}: nothing pending but key is {after}"))
+            if re.fullmatch(r"C \d+ arbiter", inp) and r == "R ok": ever_arb = True
             if inp.startswith("C ") and inp.endswith(" arbiter") and r == "R ok" and inp.split(" ")[1] not in (prev_arb or []):
                 sid = inp.split(" ")[1]
                 want = sorted(v for k, (ver, v, st) in cur.items() if k.startswith("$conflicts_") and st != "D" and not v.startswith("resolved"))
